@@ -1184,6 +1184,14 @@ C04_KINDS = {
     "pure-call-print":      (["print(1)"], "pure"),
     "pure-nested-closure":  (["zq4 :: fn do", "    zm = 3", "end"], "pure"),
     "pure-nested-branch":   (["if true do", "    if false do", "        zq5 := 2", "    end", "end"], "pure"),
+    # a pure closure nested in an IMPURE function reads / captures a mutable local (or parameter-derived mutable) of that
+    # function: directly, one pure closure deeper, inside a branch, and through a local alias
+    "pure-closure-reads-outer-local":   (["zol := 1", "zpk :: pu -> int do", "    zol", "end", "zol = 2"], "impure"),
+    "pure-closure-reads-outer-nested":  (["zol := 1", "zpk :: pu -> int do", "    zin :: pu -> int do", "        if true do", "            ret zol", "        end",
+                                          "        0", "    end", "    zin()", "end"], "impure"),
+    "pure-closure-reads-outer-expr":    (["zol := 1", "zpk :: pu x: int -> int do", "    x + zol * 2", "end"], "impure"),
+    "pure-literal-reads-outer-local":   (["zol := 1", "zpk :: (pu -> int do", "    zol", "end)"], "impure"),
+    "ok:pure-closure-reads-outer-const": (["zoc :: 1", "zpk :: pu -> int do", "    zoc", "end", "zpk()"], "impure"),
     # assignments THROUGH a field / an index inside pure functions: of a parameter, of a `::` global, of a case binding,
     # from a closure nested in the pure function; plain and compound (self-contained: the pure function is part of the plant)
     "pure-assign-param-field":     (["zpf :: pu q: Zb -> int do", "    q.a = 2", "    1", "end"], "any"),
